@@ -51,6 +51,31 @@ Theorem C40_no_ejection_at_or_above_max : forall K ops op c sm id e',
 Proof. exact hist_no_ejection_at_or_above_max. Qed.
 Print Assumptions C40_no_ejection_at_or_above_max.
 
+(* the count form: the number of endpoints that carry the interval's time as ejection time
+   after an interval is at most [room], the number of ejections max_ejection_percent admits
+   from the counter value the interval started with ([room] = length of the run of negative
+   tests share_ge k, share_ge (k+1), ...; see C40_room_meaning) *)
+Theorem C40_ejections_within_cap : forall K ops op c sm,
+  let st := final K init ops in let st' := step K st op in
+  fired K st op = Some (c, sm) ->
+  count_at (now st') (eps st') <=
+  room (2 * length (eps sm)) (numej sm) (len (eps sm)) (maxpct c).
+Proof. exact hist_ejections_within_cap. Qed.
+Print Assumptions C40_ejections_within_cap.
+
+Theorem C40_room_meaning : forall n mx f k i,
+  0 <= i < room f k n mx -> share_ge (k + i) n mx = false.
+Proof. exact room_spec. Qed.
+Print Assumptions C40_room_meaning.
+
+(* one pass: the counter grows by the number of ejections, at most what the cap admits at
+   the start of the pass, and the endpoints ejected at t grow by at most that number *)
+Theorem C40_pass_ejections_within_cap : forall crit enf n mx t l k gd k' gd' l',
+  pass crit enf n mx t k gd l = (k', gd', l') ->
+  k <= k' /\ k' - k <= room (length l) k n mx /\ count_at t l' <= count_at t l + (k' - k).
+Proof. exact pass_count. Qed.
+Print Assumptions C40_pass_ejections_within_cap.
+
 (* "an ejected endpoint is un-ejected once min(base x multiplier, max(base, max)) has
    elapsed": an endpoint ejected at t0 is, after the interval at time now st', either
    re-ejected now, or un-ejected and then t0 + span < now, or still ejected at t0 with the
@@ -195,7 +220,7 @@ Proof. exact fp_float_refuted. Qed.
 Print Assumptions C40_failure_percentage_exact_refuted.
 
 (* The executable predicate that is evaluated on implementation traces (all clauses except
-   those of the three open findings 8-10) holds on every trace of the model, for every op list. *)
+   those of the three open findings 8-10; clause 11 included) holds on every trace of the model, for every op list. *)
 Theorem C40_holds_on_every_model_trace : forall c ops, cfg_wf c = true ->
   exists obs, run c ops = Some obs /\ holds_b c ops obs = true.
 Proof. exact model_trace_holds. Qed.
